@@ -234,7 +234,7 @@ func acquire(inst string, id int64, reqs ...proxyv1alpha1.RateLimitAcquireReques
 
 // TestPropDoAcquire: grants through RateLimiter.DoAcquire (both schema types).
 func TestPropDoAcquire(t *testing.T) {
-	sub := stats.NewSub("doacquire", "rapid: one upstream with a global-count max-in-flight schema and a token-bucket schema on the real limiter; a sequence of DoAcquire calls from 3 instances with amounts in [-3, 2*limit]; oracle: negative ask => error result and no state change; max-in-flight accepted sum <= limit (ledger of accepted reports); token bucket: each grant in {n, n/2, n/4, n/8} and <= asked, never negative, and the sum of grants in every window of the run <= burst + qps*T (T from timestamps bracketing the window); non-trivial = the sequence contains a negative ask, a partial grant or a refusal; distinct by FNV-64 of the op trace")
+	sub := stats.NewSub("doacquire", "rapid: one upstream with a global-count max-in-flight schema and a token-bucket schema on the real limiter; a sequence of DoAcquire calls from 3 instances with amounts in [-3, 2*limit], interleaved with cluster updates that resize the token bucket (a new window segment starts) or change only an unrelated third schema of the same cluster (the token bucket must not notice); oracle: negative ask => error result and no state change; max-in-flight accepted sum <= limit (ledger of accepted reports); token bucket: each grant in {n, n/2, n/4, n/8} and <= asked, never negative, and the sum of grants in every window of the run <= burst + qps*T (T from timestamps bracketing the window); non-trivial = the sequence contains a negative ask, a partial grant or a refusal; distinct by FNV-64 of the op trace")
 	stats.Check(t, stats.N(3000, 20000), func(t *rapid.T) {
 		box := limbox.New("local", 1, "srv")
 		box.LeadAll()
@@ -247,6 +247,18 @@ func TestPropDoAcquire(t *testing.T) {
 		if err := box.SetCluster(cl); err != nil {
 			t.Fatalf("harness: %v", err)
 		}
+		extra := int32(0) // limit of the unrelated third schema (0 = absent)
+		apply := func() {
+			schemas := []proxyv1alpha1.FlowControlSchema{
+				limbox.GlobalSchema("mif", proxyv1alpha1.GlobalCountLimit, false, 1, mif, 0, 0),
+				limbox.GlobalSchema("tb", proxyv1alpha1.GlobalCountLimit, true, 1, qps, 1, burst)}
+			if extra > 0 {
+				schemas = append(schemas, limbox.GlobalSchema("extra", proxyv1alpha1.GlobalCountLimit, extra%2 == 0, 1, extra, 1, extra+1))
+			}
+			if err := box.SetCluster(limbox.Cluster("up", schemas...)); err != nil {
+				t.Fatalf("harness: %v", err)
+			}
+		}
 		type grant struct {
 			before, after time.Time
 			n             int32
@@ -258,8 +270,42 @@ func TestPropDoAcquire(t *testing.T) {
 		nt := false
 		steps := rapid.IntRange(1, 30).Draw(t, "steps")
 		sub.Eval()
+		// token bucket: every window of consecutive grants under one (qps, burst)
+		checkWindows := func() {
+			for i := range grants {
+				var sum int64
+				for j := i; j < len(grants); j++ {
+					sum += int64(grants[j].n)
+					T := grants[j].after.Sub(grants[i].before).Seconds()
+					if float64(sum) > float64(burst)+float64(qps)*T+1e-6 {
+						t.Fatalf("tokens granted in a window of %.6fs total %d > burst %d + qps %d * T\ntrace: %s", T, sum, burst, qps, trace)
+					}
+				}
+			}
+		}
 		for i := 0; i < steps; i++ {
 			inst := rapid.SampledFrom([]string{"i1", "i2", "i3"}).Draw(t, "instance")
+			switch rapid.IntRange(0, 9).Draw(t, "clusterUpdate") {
+			case 0:
+				// the token bucket is genuinely resized: judge what was granted so far, then a new segment starts
+				checkWindows()
+				grants = nil
+				qps = int32(rapid.IntRange(1, 200).Draw(t, "newQps"))
+				burst = qps + int32(rapid.IntRange(0, 50).Draw(t, "newBurstExtra"))
+				apply()
+				trace += fmt.Sprintf("resize-tb(qps=%d,burst=%d);", qps, burst)
+				nt = true
+				sub.Class("token-bucket-resized")
+				continue
+			case 1:
+				// only an unrelated schema of the cluster changes: no effect on the bucket
+				extra = int32(rapid.IntRange(0, 6).Draw(t, "extraSchemaLimit"))
+				apply()
+				trace += fmt.Sprintf("unrelated-schema(%d);", extra)
+				nt = true
+				sub.Class("unrelated-schema-changed")
+				continue
+			}
 			if rapid.Bool().Draw(t, "tokenBucket") {
 				n := int32(rapid.IntRange(-3, int(2*burst)).Draw(t, "tokens"))
 				b := time.Now()
@@ -354,17 +400,7 @@ func TestPropDoAcquire(t *testing.T) {
 				}
 			}
 		}
-		// token bucket: every window of consecutive grants
-		for i := range grants {
-			var sum int64
-			for j := i; j < len(grants); j++ {
-				sum += int64(grants[j].n)
-				T := grants[j].after.Sub(grants[i].before).Seconds()
-				if float64(sum) > float64(burst)+float64(qps)*T+1e-6 {
-					t.Fatalf("tokens granted in a window of %.6fs total %d > burst %d + qps %d * T\ntrace: %s", T, sum, burst, qps, trace)
-				}
-			}
-		}
+		checkWindows()
 		if nt {
 			sub.NonTrivial(stats.HashString(trace))
 			if sub.WantSample() {
